@@ -27,6 +27,32 @@ let op_ns_feed a = pump_line "ns_feed" (bytes_of_string (hex_dec (List.hd a.pos)
 let op_ns_wfeed a = pump_line "ns_wfeed" (ns_write (bytes_of_string (hex_dec (List.hd a.pos))))
 let op_ns_write a = emit ("ns_write " ^ hexl (ns_write (bytes_of_string (hex_dec (List.hd a.pos)))))
 
+(* ---------------- netstring, buffered variant up to the end of the stream ---------------- *)
+let chunks_of a = List.map (fun h -> bytes_of_string (hex_dec h)) (String.split_on_char ',' (List.hd a.pos))
+let end_name = function NsEndEof -> "eof" | NsEndErr _ -> "err" | NsEndFuel -> "loop"
+
+(* the model is run with the chunks of the script as fills (whatever the real stream type makes of them:
+   C20_ns_eof_chunking_independent) *)
+let op_ns_eof a =
+  let ((items, e), size) = ns_read_all (z_of_int (num a "max" (-1))) (chunks_of a) in
+  let its = match items with [] -> "." | l -> String.concat "," (List.map hexl l) in
+  emit (Printf.sprintf "ns_eof items=%s end=%s size=%s sticky=%s" its (end_name e)
+          (match e with NsEndEof -> string_of_int (int_of_z size) | _ -> "-") (match e with NsEndEof -> "1" | _ -> "-"))
+
+(* ConfigObject::RestoreObjects: the same loop, no maxMessageLength; an exception of the reader leaves it *)
+let ns_restore_line a =
+  let ((_, e), _) = ns_read_all (z_of_int (-1)) (chunks_of a) in
+  "ns_restore " ^ (match e with NsEndEof -> "done" | NsEndErr _ -> "err" | NsEndFuel -> "hang")
+let op_ns_restore a = emit (ns_restore_line a)
+
+(* the real writers on a payload built inside the harness: expectation from the theorems (C20_ns_writer_boundaries) *)
+let ns_wbig_line a =
+  let n = num a "n" 0 and max = num a "max" (-1) and tls = (str a "via" "buf" = "tls") in
+  let hdr = ns_dec (z_of_int n) @ [z_of_int 58] in
+  let back = ns_wbig_back tls (z_of_int max) (z_of_int n) in
+  Printf.sprintf "ns_wbig hdr=%s total=%d last=2c same=1 back=%d err=%d" (hexl hdr) (List.length hdr + n + 1) (if back then 1 else 0) (if back then 0 else 1)
+let op_ns_wbig a = emit (ns_wbig_line a)
+
 (* ---------------- netstring, stream variant ---------------- *)
 let nss_run max input =
   (* -> items, end, rest *)
@@ -106,15 +132,38 @@ let rec canon (b : Buffer.t) (v : jv) =
     Buffer.add_char b '}'
 let canon_s v = let b = Buffer.create 64 in canon b v; Buffer.contents b
 
+(* dec=net: JsonDecode (nesting limit of the source); dec=trusted: JsonDecodeTrusted (the decoder of the state file) *)
+let lim_of a = if str a "dec" "net" = "trusted" then (match f_js_trusted_max_depth with Some l -> l | None -> None) else f_js_max_depth
+
 let op_js_rt a =
   let v = parse_value (List.hd a.pos) in
   let enc = js_encode fprint v in
-  match js_decode fparse f_js_max_depth enc with
+  match js_decode fparse (lim_of a) enc with
   | Some back -> emit (Printf.sprintf "js_rt enc=%s dec=%s" (if num a "cmp" 1 <> 0 then hexl enc else "~") (canon_s back))
   | None -> emit "js_rt err"
 
+(* a very long string = a short well-formed pattern repeated: the encoding of the whole is the encoding of the pattern repeated
+   (escaping works code point by code point), and the value comes back (C20_json_roundtrip); computed from the model on the pattern *)
+let js_long_line a =
+  let pat = bytes_of_string (hex_dec (List.hd a.pos)) in
+  let reps = num a "reps" 1 in
+  let key = (str a "where" "val" = "key") in
+  let e1 = js_encode fprint (JsStr pat) in
+  let inner = List.length e1 - 2 in
+  let whole1 = if key then js_encode fprint (JsObj [(pat, JsNull)]) else e1 in
+  let len = List.length whole1 + (reps - 1) * inner in
+  (* first 12 bytes of the encoding: prefix of whole1 up to its string body, then the body repeated *)
+  let pre = if key then 2 else 1 in
+  let body1 = List.filteri (fun i _ -> i >= 1 && i < 1 + inner) e1 in
+  let rec take n l = if n = 0 then [] else match l with [] -> [] | x :: t -> x :: take (n - 1) t in
+  let rec rep n = if n = 0 then [] else body1 @ rep (n - 1) in
+  let tail = List.filteri (fun i _ -> i >= pre + inner) whole1 in
+  let full_head = take 12 (take pre whole1 @ rep (min reps 13) @ tail) in
+  Printf.sprintf "js_long len=%d head=%s same=1" len (hexl full_head)
+let op_js_long a = emit (js_long_line a)
+
 let op_js_dec a =
-  match js_decode fparse f_js_max_depth (bytes_of_string (hex_dec (List.hd a.pos))) with
+  match js_decode fparse (lim_of a) (bytes_of_string (hex_dec (List.hd a.pos))) with
   | Some v -> emit ("js_dec ok " ^ canon_s v)
   | None -> emit "js_dec err"
 
@@ -123,13 +172,24 @@ let op_js_msg a =
   | Some v -> emit ("js_msg ok " ^ canon_s v)
   | None -> emit "js_msg err"
 
+(* JsonRpc::ReadMessage + JsonRpc::DecodeMessage over the TLS stream, as JsonRpcConnection::HandleIncomingMessages runs them *)
+let op_nss_msg a =
+  let max = num a "max" (-1) in
+  let chunks = List.map hex_dec (String.split_on_char ',' (List.hd a.pos)) in
+  let input = bytes_of_string (String.concat "" chunks) in
+  let (items, e, _) = nss_run max input in
+  let its = match items with [] -> "." | l -> String.concat "," (List.map hexl l) in
+  let msgs = match items with [] -> "." | l ->
+    String.concat ";" (List.map (fun it -> match js_decode_message fparse f_js_max_depth it with Some v -> canon_s v | None -> "E") l) in
+  emit (Printf.sprintf "nss_msg items=%s msgs=%s end=%s" its msgs e)
+
 let js_deep_line a =
   let n = num a "n" 1 and close = num a "close" 1 <> 0 and obj = str a "kind" "a" = "o" in
   let b = Buffer.create (n * 6) in
   for _ = 1 to n do Buffer.add_string b (if obj then "{\"a\":" else "[") done;
   if obj then Buffer.add_char b '0';
   if close then for _ = 1 to n do Buffer.add_string b (if obj then "}" else "]") done;
-  match js_decode fparse f_js_max_depth (bytes_of_string (Buffer.contents b)) with
+  match js_decode fparse (lim_of a) (bytes_of_string (Buffer.contents b)) with
   | Some v ->
     let rec depth d (v : jv) = match v with
       | JsArr [] -> d + 1 | JsArr (x :: _) -> depth (d + 1) x
@@ -191,6 +251,32 @@ let oracle_c20 script trace =
         let t = toks_of l in
         let got = bytes_of_string (hex_dec (List.nth t 1)) in
         if not (cd_bytes_eqb got (ns_write (bytes_of_string (hex_dec (List.hd a.pos))))) then fail "ns-write differs-from-model")
+    | Some ("ns_eof", a) ->
+      (match take line with None -> () | Some l ->
+        let t = toks_of l in
+        let input = List.concat (chunks_of a) in
+        (match tok_val t "items", tok_val t "end", tok_val t "size", tok_val t "sticky" with
+         | Some it, Some e, Some sz, Some sticky ->
+           let code = (match e with "eof" -> 0 | "err" -> 1 | _ -> 2) in
+           let num_or s = (match int_of_string_opt s with Some n -> n | None -> -1) in
+           if code = 2 then fail (Printf.sprintf "ns-eof no-terminal-status-within-bound mode=%s (caller loop would not end)" (str a "mode" "chunk"))
+           else if not (ns_oracle_eof (z_of_int (num a "max" (-1))) input (items_of it) (z_of_int code) (z_of_int (num_or sz)) (z_of_int (num_or sticky)))
+           then fail (Printf.sprintf "ns-eof differs-from-model mode=%s" (str a "mode" "chunk"))
+         | _ -> fail ("ns-eof malformed-observation " ^ l)))
+    | Some ("ns_restore", a) ->
+      (match take line with None -> () | Some l ->
+        if l <> ns_restore_line a then
+          fail (Printf.sprintf "ns-eof RestoreObjects %s expected=%s" (String.concat "_" (List.tl (toks_of l))) (ns_restore_line a)))
+    | Some ("ns_wbig", a) ->
+      (match take line with None -> () | Some l ->
+        let t = toks_of l in
+        (match tok_val t "hdr", tok_val t "total", tok_val t "last", tok_val t "same", tok_val t "back", tok_val t "err" with
+         | Some h, Some tot, Some la, Some sa, Some b, Some e ->
+           let zi s = z_of_int (match int_of_string_opt s with Some n -> n | None -> -1) in
+           if not (ns_oracle_wbig (str a "via" "buf" = "tls") (z_of_int (num a "max" (-1))) (z_of_int (num a "n" 0))
+                     (bytes_of_string (hex_dec h)) (zi tot) (bytes_of_string (hex_dec la)) (zi sa) (zi b) (zi e))
+           then fail (Printf.sprintf "ns-write boundary n=%d via=%s expected=%s" (num a "n" 0) (str a "via" "buf") (ns_wbig_line a))
+         | _ -> fail ("ns-write malformed-observation " ^ l)))
     | Some ("nss_read", a) ->
       (match take line with None -> () | Some l ->
         let t = toks_of l in
@@ -202,19 +288,42 @@ let oracle_c20 script trace =
                      (z_of_int (if e = "err" then 1 else 0)) (z_of_int (int_of_string r)) (z_of_int 0))
            then fail ("ns-stream differs-from-model " ^ (str a "mode" "sync"))
          | _ -> fail ("ns-stream malformed-observation " ^ l)))
+    | Some ("nss_msg", a) ->
+      (match take line with None -> () | Some l ->
+        let t = toks_of l in
+        let input = bytes_of_string (String.concat "" (List.map hex_dec (String.split_on_char ',' (List.hd a.pos)))) in
+        (match tok_val t "items", tok_val t "msgs", tok_val t "end" with
+         | Some it, Some ms, Some e ->
+           let items = items_of it in
+           (* framing: complete frames only, then the error / the end - exactly as established for the model *)
+           let (fs, e', _) = nss_run (num a "max" (-1)) input in
+           if not (cd_frames_eqb fs items) || e <> e' then
+             fail (Printf.sprintf "ns-stream message-framing differs-from-model %s close=%s" (str a "mode" "sync") (str a "close" "clean"))
+           else begin
+             let ml = if ms = "." then [] else String.split_on_char ';' ms in
+             if List.length ml <> List.length items then fail "ns-stream message-count differs-from-frames"
+             else List.iter2 (fun it m ->
+               let dec = if m = "E" then None else (try Some (parse_value m) with _ -> None) in
+               if m <> "E" && dec = None then fail ("json-message malformed-observation " ^ m)
+               else if not (js_oracle_msg fparse f_js_max_depth feqb fint it dec) then fail "json-message over-stream differs-from-model") items ml
+           end
+         | _ -> fail ("ns-stream malformed-observation " ^ l)))
     | Some ("js_rt", a) ->
       (match take line with None -> () | Some l ->
         let t = toks_of l in
         let v = parse_value (List.hd a.pos) in
         let dec = match tok_val t "dec" with Some c -> (try Some (parse_value c) with _ -> None) | None -> None in
         if not (js_oracle_rt feqb fint v dec) then fail "json-roundtrip decoded-value-differs")
+    | Some ("js_long", a) ->
+      (match take line with None -> () | Some l ->
+        if l <> js_long_line a then fail (Printf.sprintf "json-roundtrip long-string reps=%d where=%s expected=%s got=%s" (num a "reps" 1) (str a "where" "val") (js_long_line a) l))
     | Some ("js_dec", a) ->
       (match take line with None -> () | Some l ->
         let t = toks_of l in
         let dec = match t with _ :: "ok" :: c :: _ -> (try Some (parse_value c) with _ -> None) | _ -> None in
         let malformed = (match t with _ :: "ok" :: _ :: _ -> false | [_; "err"] -> false | _ -> true) in
         if malformed then fail ("json-decode malformed-observation " ^ l)
-        else if not (js_oracle_dec fparse f_js_max_depth feqb fint (bytes_of_string (hex_dec (List.hd a.pos))) dec) then fail "json-decode differs-from-model")
+        else if not (js_oracle_dec fparse (lim_of a) feqb fint (bytes_of_string (hex_dec (List.hd a.pos))) dec) then fail (Printf.sprintf "json-decode differs-from-model dec=%s" (str a "dec" "net")))
     | Some ("js_msg", a) ->
       (match take line with None -> () | Some l ->
         let t = toks_of l in
@@ -238,8 +347,13 @@ let () =
   register_op "ns_wfeed" op_ns_wfeed;
   register_op "ns_write" op_ns_write;
   register_op "ns_frames" (fun _ -> ());
+  register_op "ns_eof" op_ns_eof;
+  register_op "ns_restore" op_ns_restore;
+  register_op "ns_wbig" op_ns_wbig;
   register_op "nss_read" op_nss_read;
+  register_op "nss_msg" op_nss_msg;
   register_op "js_rt" op_js_rt;
+  register_op "js_long" op_js_long;
   register_op "js_dec" op_js_dec;
   register_op "js_msg" op_js_msg;
   register_op "js_deep" op_js_deep;
